@@ -135,7 +135,7 @@ func (e *engine) generate(filter func(b *block) bool) []*fnResult {
 			out = append(out, &fnResult{name: n, obligs: []*oblig{{name: n + "/unmapped.function", kind: "unmapped", fn: n, goal: "false", result: "sat", solver: "structural", props: b.props, clause: "contract block binds to no function in /repo", model: "function not found"}}})
 			continue
 		}
-		out = append(out, e.verifyFunc(fn, b))
+		out = append(out, e.tryRebind(fn, b, e.verifyFunc(fn, b)))
 	}
 	return out
 }
